@@ -113,6 +113,10 @@ func (g *Gen) kvOp(write bool) {
 	hb := hx([]byte(b))
 	if write {
 		g.wrote[g.skey("kv", b)] = true
+		if len(g.calls) > 0 && strings.HasPrefix(g.calls[len(g.calls)-1], "begin w") && g.r.Chance(1, 8) {
+			g.add("putfill %s %s", hb, g.hpick(g.p.Keys)) // first call of the transaction: fill the active segment exactly
+			return
+		}
 		switch g.r.Intn(10) {
 		case 0, 1:
 			g.add("del %s %s", hb, g.hpick(g.p.Keys))
@@ -474,8 +478,14 @@ func genHistory(r *PRNG, p Profile, seg int) []string {
 		if r.Chance(p.Merge, 100) {
 			g.add("merge")
 		}
-		if r.Chance(p.Reopen, 100) {
-			g.add("reopen")
+		filled := false
+		for k := len(g.calls) - 1; k >= 0 && !strings.HasPrefix(g.calls[k], "begin"); k-- {
+			if strings.HasPrefix(g.calls[k], "putfill") {
+				filled = true
+			}
+		}
+		if r.Chance(p.Reopen, 100) || filled {
+			g.add("reopen") // in particular right after a segment was filled to its last byte
 		}
 	}
 	g.add("reopen")
